@@ -1,34 +1,74 @@
-# C01 uses the history harness and the instance builder of C08 (harness/C08/hist.cpp, harness/C08/spec.py) with the
-# per-id ledger (VF_ONCE) and the real ~ThreadPool at the end of every history.
-import os
-import importlib.util
+TECHNIQUE = ('bounded symbolic execution of LLVM IR lowered to C: CBMC/SAT (cadical), sequential history harness on the '
+             'real ThreadPool (real constructor, submission paths, worker loop, resize, destructor) with virtual workers '
+             'and a per-task run ledger')
+ASSUMPTIONS = [
+    'moodycamel::ConcurrentQueue replaced by its contract model (shim/moodycamel, bounded FIFO)',
+    'detail::alignedMalloc/alignedFree replaced by their contract (typed fresh block); small-buffer allocator = malloc/free',
+    'std::thread start/join modelled: pool threads never run by themselves; where a history needs a worker the harness '
+    'runs the real worker loop (threadLoopImpl<true>) itself; the loop is left through PerThreadData::stop() called from '
+    'inside a task (what ~ThreadPool/resize do concurrently), never by parking',
+    'cbmc runs with --no-standard-checks --div-by-zero-check --bounds-check: pointer-validity obligations of the pool '
+    'code are not part of this property (they dominate the formula otherwise); user checks, division and array '
+    'bounds are decided',
+]
+OUTSIDE = ('API-call granularity: each API call of a history is atomic (interleavings inside the functions and more than '
+           'one concurrent producer are outside; the ring protocol is covered by C34, park/wake by C07/C09); histories '
+           'other than the listed shapes (shapes are fixed, parameters - worker asleep or awake, caller identity, inline '
+           'depth, which ring a waiter starts with - are symbolic); pool sizes > 2; polling mode (setSignalingWake(false)); '
+           'steal-ring sharing 1 (steal-ring capacity 4), spin limits 1/2 and DISPENSO_DISABLE_CASCADE_WAKERANGE (cascade-host '
+           'wrappers exist only for pools with more than one wake group) are configuration bounds; allocation failure')
 
-_p = os.path.join(os.path.dirname(os.path.abspath(__file__)), '..', 'C08', 'spec.py')
-_s = importlib.util.spec_from_file_location('c08_spec', _p)
-_c08 = importlib.util.module_from_spec(_s)
-_s.loader.exec_module(_c08)
+_SRC = ['dispenso/thread_pool.cpp', 'dispenso/thread_pool_wake.cpp', 'dispenso/detail/per_thread_info.cpp',
+        'dispenso/task_set.cpp']
+_R16 = '_ZN8dispenso21ConcurrentObjectArenaINS_14MpmcRingBufferINS_12OnceFunctionELm16ELb1EEEmLm64EE7grow_byEm.4'
+_R4 = '_ZN8dispenso21ConcurrentObjectArenaINS_14MpmcRingBufferINS_12OnceFunctionELm4ELb1EEEmLm64EE7grow_byEm.4'
+_RESIZE = '_ZN8dispenso10ThreadPool12resizeLockedEl'
+_DTOR = '_ZN8dispenso10ThreadPoolD2Ev'
+_LOOP = '_ZN8dispenso10ThreadPool14threadLoopImplILb1EEEvRNS0_13PerThreadDataEi'
 
-TECHNIQUE = _c08.TECHNIQUE
-ASSUMPTIONS = _c08.ASSUMPTIONS
-OUTSIDE = _c08.OUTSIDE + ('; more than one producer thread and interleavings inside the API calls (covered for the '
-                          'rings by C34 and for park/wake by C07/C09 kernels)')
-_END = '; then the real ~ThreadPool; per-id ledger: never run twice, exactly once after the destructor'
+SCN = {
+    'central': (1, 'ThreadPool(0): caller = external thread or worker of another pool, inline depth 0..40 (symbolic); '
+                   'schedule, schedule(FQ), schedulePlaced, schedulePlaced(FQ), scheduleBulk(2): everything runs on the caller'),
+    'worker': (2, 'ThreadPool(1, loadMultiplier 1): worker asleep (real enterSleep) or awake (symbolic); '
+                  'schedulePlaced(stop task, FQ) -> claimed sleeper\'s steal ring or central queue; schedule(FQ) -> central '
+                  'queue; schedule() -> inline (workRemaining_ 2 > load factor 1); the worker runs the real '
+                  'threadLoopImpl<true> until the stop task has run'),
+    'overflow': (3, 'ThreadPool(1): ring 0 pre-filled to capacity (16 older tasks, real try_push); worker asleep or awake '
+                    '(symbolic); schedulePlaced(FQ) -> steal ring or central queue; fork-join ring fast path '
+                    '(scheduleBulkToRings, 1 task) finds ring 0 full and falls back to the central queue; no consumer: '
+                    'the destructor drains central queue, ring and steal ring'),
+    'ring_resize': (4, 'ThreadPool(1): ring fast path (1 task), resize(2) drains it and grows the arenas; ring fast path '
+                       'over both rings (2 tasks); optional waiter steal (tryExecuteNextFromRings, symbolic start ring); '
+                       'the destructor drains the rings'),
+}
 
 
-def inst(kind, n, tiers, **kw):
-    return _c08.inst(kind, n, tiers, prop='VF_ONCE', end=_END, **kw)
+def inst(kind, n, tiers, name=None, asleep=9, via_taskset=0, steal=0, unwind_fn=None, loops=None, mq=2, timeout=1500):
+    scn, text = SCN[kind]
+    defs = {'VF_N': n, 'VF_SCN': scn, 'VF_MQ_CAP': mq, 'VF_VIA_TASKSET': via_taskset, 'VF_STEAL': steal,
+            'VF_ASLEEP': asleep}
+    return {
+        'name': name or '%s_n%d' % (kind, n), 'src': 'once.cpp', 'engine': 'cbmc', 'shims': ['moodycamel'],
+        'repo_sources': _SRC, 'rt_defs': {'VF_HAVE_THREAD_MODEL': 1}, 'models': ['aligned_alloc'],
+        'defs': defs,
+        'cflags': ['-DDISPENSO_TUNE_STEAL_RING_SHARING=1', '-DDISPENSO_TUNE_FIXED_SPIN_ITERS=2',
+                   '-DDISPENSO_TUNE_SPIN_CHECK_INTERVAL=1', '-DDISPENSO_TUNE_QUEUE_CHECK_INTERVAL=1',
+                   '-DDISPENSO_DISABLE_CASCADE_WAKERANGE'],
+        'unwind': 3, 'nthreads': 1, 'spin_loops': True, 'unwindset': dict({_R16: 17, _R4: 5}, **(loops or {})),
+        'unwind_fn': unwind_fn or {}, 'fs_array': 4096,
+        'checks': ['--no-standard-checks', '--div-by-zero-check', '--bounds-check'],
+        'timeout': timeout, 'tiers': tiers,
+        'bounds': ('model queue capacity %d, steal-ring capacity 4; history: %s%s; then the real ~ThreadPool; per-id ledger: '
+                   'never run twice, exactly once after the destructor') % (
+                       mq, text, ' (ring fast path entered through the real TaskSet::scheduleBulk)' if via_taskset else ''),
+    }
 
 
 INSTANCES = [
-    inst('central', 0, ['quick', 'thorough'], rt=1, choice=1),
-    inst('worker', 1, ['quick', 'thorough']),
-    inst('overflow', 1, ['quick', 'thorough'], choice=0),
-    inst('ring_resize', 1, ['quick', 'thorough'], rt=2, choice=0),
-    inst('central', 1, ['thorough'], rt=2),
-    inst('steal_resize', 1, ['thorough'], rt=0),
-    inst('steal_worker', 1, ['thorough']),
-    inst('overflow', 1, ['thorough']),
-    inst('ring_resize', 1, ['thorough']),
-    inst('central', 2, ['thorough']),
-    inst('ring_resize', 2, ['thorough']),
+    inst('central', 0, ['quick', 'thorough']),
+    inst('worker', 1, ['quick', 'thorough'], loops={_LOOP + '.2': 4, _LOOP + '.3': 4}),
+    inst('overflow', 1, ['quick', 'thorough'], loops={_DTOR + '.9': 17}),
+    inst('ring_resize', 1, ['quick', 'thorough']),
+    inst('overflow', 1, ['thorough'], name='overflow_ts_n1', via_taskset=1, unwind_fn={_DTOR: 18}, timeout=2700),
+    inst('ring_resize', 1, ['thorough'], name='ring_resize_steal_ts_n1', via_taskset=1, steal=1, timeout=2700),
 ]
